@@ -49,7 +49,7 @@ P = {
  "C14": ("Coq proof: codec round trips (item, node, root record) and layout constants regenerated from the Go source equal the v4 layout; tie: the extracted Coq decoder (no code shared with gkvlite) decodes every file the implementation flushes and the result is compared with the reference state",
          "Layout obligation re-checked against the source on every run; decoder runs on real files of all key/value sizes and name sets.",
          "JSON of the root record modelled for gkvlite's canonical output."),
- "C15": ("Coq proof: reference-count bookkeeping model (count = owners) + callback-log oracle: per-item counts never negative, positive while reachable or handed out, zero after everything is closed; the decisions, call orders and call sites of the source that the model rests on are proved from function bodies regenerated from the Go source on every run (Dec*.v)",
+ "C15": ("Coq proof: reference-count bookkeeping model (count = owners) + callback-log oracle: per-item counts never negative, positive while reachable or handed out, zero after everything is closed (the callbacks are a recycling allocator: buffers of items whose count reached zero are overwritten at once, so a use after release changes a result; a deterministic parked two-reader reload scenario); the decisions, call orders and call sites of the source that the model rests on are proved from function bodies regenerated from the Go source on every run (Dec*.v)",
          "Counts tracked through the real callbacks on seeded histories incl. snapshots and closes in varying order.",
          "Known finding: Get/GetAny keep a reference the caller cannot release (probed separately)."),
  "C16": ("Coq proof: block arithmetic and the two-pass block visit / random visit deliver a permutation of the items for every n; tie: exhaustive small n and sizes around k*1024 on the implementation; the decisions, call orders and call sites of the source that the model rests on are proved from function bodies regenerated from the Go source on every run (Dec*.v)",
@@ -61,8 +61,8 @@ P = {
  "C18": ("Coq proof: iterator handshake LTS (consumer/producer/two rendezvous channels) terminates with the producer exited for every n, command list and schedule; tie: goroutine exit and pin release observed on the implementation for all stop positions; nested calls in visitors with watchdog; the decisions, call orders and call sites of the source that the model rests on are proved from function bodies regenerated from the Go source on every run (Dec*.v)",
          "Partial: the LTS abstracts Go channels and scheduling; goroutine exit is observed, not proved, on the implementation.",
          "Go runtime semantics of channels assumed as in the LTS."),
- "C19": ("Coq proof over the read-event models: NewStore reads the root record only; GetItem/MinItem/MaxItem/visits (Lazy.v) and SetItem/Delete (LazyMut.v: union/split/join/numInfo instrumented with every record they touch, proved to compute the same trees) read node records, item headers and keys only, for any cache state; the reload rule of itemLoc.read regenerated from the source (Decisions.v). Tie: the EXACT list of ReadAt calls of every NewStore and of the first lookup, visit, SetItem or Delete after it equals the model's; model-free oracle: every ReadAt of every key-only call intersected with all value byte ranges",
-         "Theorems for every tree, key, comparator and cache state; every read of every key-only call in every history is checked; exact read lists compared ~1,900 times per run.",
+ "C19": ("Coq proof over the read-event models: NewStore reads the root record only; GetItem/MinItem/MaxItem/visits (Lazy.v) and SetItem/Delete (LazyMut.v: union/split/join/numInfo instrumented with every record they touch, proved to compute the same trees) read node records, item headers and keys only, for any cache state; the reload rule of itemLoc.read regenerated from the source (Decisions.v). whole runs of calls with a memory of what is loaded and what visits evicted (LazySeq/LazySeq2) and with Store.Flush inside the run (LazySeq3: the file the run writes, offsets of the records it flushes; a Flush reads nothing, keeps everything in memory, is invisible to the next lookup's reads; no key-only call of such a run reads a value byte). Tie: the EXACT list of ReadAt calls of every NewStore, of the first lookup, visit, SetItem or Delete after it, and of every call of every run of lookups, mutations, visits, Len, GetTotals and Flush on one collection after a re-open equals the model's (the file after each Flush of a run compared by length and MD5); model-free oracle: every ReadAt of every key-only call intersected with all value byte ranges",
+         "Theorems for every tree, key, comparator and cache state; every read of every key-only call in every history is checked; exact read lists compared ~5,000 times per run.",
          "Value ranges derived from the implementation's own write log."),
 }
 
